@@ -42,10 +42,13 @@ ASSUMPTIONS = [
     "nest written from the TF padding rules); tolerance per output element "
     "1e-5*A + 1e-6 where A is the same expression evaluated with absolute "
     "values (A >= |ref|, equal to it without cancellation); measured on "
-    "the unchanged tree (2 x 3256 cases): max error 0.020 of that tolerance (0.077 of the plain 1e-5*max|ref|+1e-6)",
+    "the unchanged tree (2 x 3256 cases): max error 0.020 of that tolerance "
+    "(0.077 of the plain 1e-5*max|ref|+1e-6 of DESIGN.md)",
     "get_folded_weights() vs closed form: 2e-6*|value| + 1e-37 for the "
     "kernel, 2e-6*(|gamma/sqrt(var+eps)|*(|bias|+|mean|)+|beta|) + 1e-37 for "
-    "the bias (float32 rsqrt, itself up to 2.2e-7 off, and three roundings; measured max 0.10 of it)",
+    "the bias (float32 rsqrt, itself up to 2.2e-7 off, and three roundings: "
+    "a-priori about 0.26 of it; measured max 0.10 in 6.5k cases, 5 of 1777 "
+    "thorough cases between 0.1 and 0.5)",
     "quantized reference applies freshly built quantizers (same string) to "
     "get_folded_weights() once that is validated against the closed form "
     "(avoids rounding-breakpoint flips from a 1-ulp different folded "
@@ -62,9 +65,10 @@ ASSUMPTIONS = [
     "depthwise layers use equal row/column strides; dilation only with "
     "stride 1 (TensorFlow / Keras constraints)",
 ]
-BUDGET_S = {"quick": 50, "thorough": 840}
+BUDGET_S = {"quick": 45, "thorough": 840}
 REQUIRED_LABELS = {
-    "quick": ["lattice", "hyp_layer", "hyp_unfold", "hyp_quantize", "cls:conv", "cls:dw",
+    "quick": ["lattice", "hyp_layer", "hyp_unfold", "hyp_quantize",
+              "cls:conv", "cls:dw",
               "mode:ema_stats_folding", "mode:batch_stats_folding",
               "float_equiv_checked", "quant_equiv_checked",
               "folded_weights_checked", "gamma_zero", "gamma_negative",
@@ -680,7 +684,7 @@ def run(ctx):
 
   strat = G.mixed_case_strategy(ctx.tier)
   todo = (6400 if ctx.quick else 60000) // ctx.n + 1
-  batch = 80
+  batch = 40
   i = 0
   while todo > 0 and ctx.time_left() > 0:
     core.hyp_run(ctx, strat, orc, min(batch, todo), name="c15_%d" % i)
